@@ -62,6 +62,9 @@ func shortName(pkgPath string) string {
 
 // Load loads the repository at dir for the given GOARCH. Any load or type error is an
 // infrastructure failure: the caller exits 2 without a verdict.
+// theWorld is the program most recently loaded (path enumeration consults it for helper lifting).
+var theWorld *World
+
 func Load(dir, goarch string) (*World, error) { return LoadMod(dir, goarch, modulePath, 9) }
 
 // LoadMod loads the module rooted at dir; packages whose path starts with modPrefix are analysed.
@@ -130,6 +133,7 @@ func LoadMod(dir, goarch, modPrefix string, minPkgs int) (*World, error) {
 	}
 	prog.Build()
 	w.Prog = prog
+	theWorld = w
 	return w, nil
 }
 
@@ -225,6 +229,7 @@ func (w *World) Func(pkg, name string) (*ssa.Function, error) {
 	if f == nil || len(f.Blocks) == 0 {
 		return nil, anchorErr{pkg + "." + name}
 	}
+	anchored[f] = true
 	return f, nil
 }
 
@@ -259,6 +264,7 @@ func (w *World) Method(pkg, typ, name string) (*ssa.Function, error) {
 			if sel.Obj().Name() == name && sel.Obj().Pkg() == w.Pkgs[pkg].Types {
 				f := w.Prog.FuncValue(sel.Obj().(*types.Func))
 				if f != nil && len(f.Blocks) > 0 {
+					anchored[f] = true
 					return f, nil
 				}
 			}
